@@ -11,6 +11,17 @@ from vals import *
 from ir import ExportError
 
 
+SOLVER_LOGIC = __import__("os").environ.get("GOBMC_LOGIC", "")
+
+
+def _mk_solver():
+    return z3.SolverFor(SOLVER_LOGIC) if SOLVER_LOGIC else z3.SimpleSolver()
+
+
+LEMMAS = not bool(__import__('os').environ.get('GOBMC_NOLEMMAS'))
+RESET_EVERY = int(__import__('os').environ.get('GOBMC_RESET_EVERY', '300'))
+
+
 class Unsupported(Exception):
     pass
 
@@ -51,7 +62,7 @@ class Frame:
 
 class Alt:
     """one guarded alternative of a thread"""
-    __slots__ = ("guard", "frames", "thread", "nalloc", "nspawn", "ov", "status", "panic", "resume", "opt", "ninstr", "info", "rd", "ack", "pending", "dead", "foot", "en_last")
+    __slots__ = ("guard", "frames", "thread", "nalloc", "nspawn", "ov", "status", "panic", "resume", "opt", "ninstr", "info", "rd", "ack", "pending", "dead", "foot", "en_last", "spin", "seen_step")
 
     def __init__(self, thread, guard):
         self.thread = thread
@@ -72,6 +83,8 @@ class Alt:
         self.dead = None
         self.foot = None      # (reads, writes) of the last examination as a scheduling candidate
         self.en_last = None   # its enabledness formula at that time
+        self.seen_step = None
+        self.spin = False     # condition under which it can only repeat a state-preserving transition
 
     def copy(self):
         a = Alt(self.thread, self.guard)
@@ -125,7 +138,7 @@ class Machine:
         self.threads = []
         self.thread_by_key = {}
         self.check_timeout_ms = check_timeout_ms
-        self.solver = z3.SolverFor("QF_BV")
+        self.solver = _mk_solver()
         self.solver.set("timeout", check_timeout_ms)
         self.nchecks_since_reset = 0
         self.fresh_checks = False
@@ -241,7 +254,7 @@ class Machine:
     def reset_solver(self):
         """z3's incremental state degrades over hundreds of check-sat-assuming calls (measured: 50x);
         a fresh solver with the same assertions is rebuilt at every scheduling step"""
-        self.solver = z3.SolverFor("QF_BV")
+        self.solver = _mk_solver()
         self.solver.set("timeout", self.check_timeout_ms)
         if self.constraints:
             self.solver.add(*self.constraints)
@@ -322,17 +335,31 @@ class Machine:
         # adaptive: incremental solver with a short budget first; when it does not answer its state has
         # degraded (measured) - rebuild it from the assertions and ask again with the full budget
         self.nchecks_since_reset += 1
-        if self.nchecks_since_reset > 300:
+        if self.nchecks_since_reset > RESET_EVERY:
             self.reset_solver()
         self.solver.set("timeout", 250)
-        res = self.solver.check(*self.lits_of(f))
+        tl = time.time()
+        lits = self.lits_of(f)
+        self.stats["t_lits"] = self.stats.get("t_lits", 0) + (time.time() - tl)
+        res = self.solver.check(*lits)
         if res == z3.unknown:
             self.stats["fresh_fallbacks"] = self.stats.get("fresh_fallbacks", 0) + 1
+            t2 = time.time()
             self.reset_solver()
             res = self.solver.check(*self.lits_of(f))
+            self.stats["fallback_s"] = self.stats.get("fallback_s", 0) + (time.time() - t2) + 0.25
         self.solver_last = self.solver
+        kk = "t_" + str(res)
+        self.stats[kk] = self.stats.get(kk, 0) + (time.time() - t1)
+        self.stats["n_" + str(res)] = self.stats.get("n_" + str(res), 0) + 1
         self.stats["solver_checks"] += 1
         r = (res != z3.unsat)
+        if res == z3.unsat and LEMMAS:
+            # an infeasible condition is an implied lemma: keeping it asserted lets later, similar queries be refuted by propagation
+            lem = z3.Not(f)
+            self.constraints.append(lem)
+            self.solver.add(lem)
+            self.stats["lemmas"] = self.stats.get("lemmas", 0) + 1
         if res == z3.sat:
             self.models.insert(0, [self.solver_last.model(), len(self.constraints)])
             del self.models[12:]
@@ -1973,6 +2000,9 @@ def exec_builtin(m, alt, fr, ins, bname, args, argt, work):
         return None
     if bname in ("print", "println"):
         return None
+    if bname == "close":
+        # only reached from deferred calls (a direct close is a scheduling point of its own)
+        return m.intrinsics["$close"][1](m, alt, fr, ins, args, work)
     if bname == "min" or bname == "max":
         ii = m.intinfo(argt[0])
         r = args[0]
